@@ -523,7 +523,7 @@ impl Resolver<'_> {
             }
             OpKind::SubscribeEvent => {
                 let service_cookie = self.any_svc(op.a);
-                let serial = if op.c % 32 == 31 {
+                let serial = if op.d & 0x400 != 0 {
                     None
                 } else {
                     Some(self.serial(Pending::Other))
@@ -542,7 +542,7 @@ impl Resolver<'_> {
             .into(),
             OpKind::SubscribeAll => {
                 let service_cookie = self.any_svc(op.a);
-                let serial = if op.c % 32 == 31 {
+                let serial = if op.d & 0x400 != 0 {
                     None
                 } else {
                     Some(self.serial(Pending::Other))
